@@ -32,9 +32,10 @@
 From Coq Require Import ZArith Bool String List.
 Require Import NixV.Base.Prelude NixV.Base.F64 NixV.Gen.GenDimensions NixV.Gen.GenTables NixV.Axis.RangeModel.
 Import ListNotations.
-Local Open Scope Z_scope.
-Local Open Scope bool_scope.
 Local Open Scope string_scope.
+Local Open Scope list_scope.
+Local Open Scope bool_scope.
+Local Open Scope Z_scope.
 
 (* ------------------------------------------------------------------------------------------ *)
 (** * Behaviour switches *)
@@ -116,7 +117,7 @@ Definition nd_set (s : list Z) (i : Z) (v : Z) : res (list Z) :=
     (= splitUnit on this sub-grammar; C18 proves the grammar unambiguous) *)
 Definition split_atomic (s : string) : option (string * string) :=
   let try_prefix (p : string) : option (string * string) :=
-    match find (fun u => String.eqb (p ++ u) s) UNITS with Some u => Some (p, u) | None => None end in
+    match find (fun u => String.eqb (p ++ u)%string s) UNITS with Some u => Some (p, u) | None => None end in
   let fix go (ps : list string) : option (string * string) :=
     match ps with
     | [] => None
@@ -389,8 +390,8 @@ Definition getOffsetAndCount_tag (B : behaviour) (t : tag) (a : darray) (m : Ran
   let position2 := position1 ++ map fst pad in
   let extent2 := extent1 ++ map snd pad in
   let units0 := if zlen units =? 0 then zrepeat "none" (zlen position2) else units in
-  let units1 := firstn (length position2) units0 in
-  let units2 := units1 ++ map getDimensionUnit (firstn (length position2 - length units1) (skipn (length units1) dimensions)) in
+  let units1 := firstn (List.length position2) units0 in
+  let units2 := units1 ++ map getDimensionUnit (firstn (List.length position2 - List.length units1) (skipn (List.length units1) dimensions)) in
   bind (mapMi (tag_dim B specified (a_shape a) m') 0 (zip4 position2 extent2 units2 dimensions)) (fun ocs =>
   Ok (map fst ocs, map snd ocs))).
 
@@ -475,7 +476,7 @@ Definition mtag_row (B : behaviour) (mt : mtag) (ndims : Z) (max_extents : list 
                 | None => zrepeat fzero (zlen offset)
                 end in
   let specified := Z.min (zlen offset) ndims in
-  let pad := skipn (length offset) max_extents in
+  let pad := skipn (List.length offset) max_extents in
   let offset' := firstn (Z.to_nat ndims) (offset ++ map fst pad) in
   let extent' := firstn (Z.to_nat ndims) (extent ++ map snd pad) in
   let fix go (i : Z) (os es : list F64) : list (F64 * F64 * bool) :=
@@ -633,3 +634,13 @@ Definition featureData_mtag1 (B : behaviour) (mt : mtag) (index : Z) (feature_in
   : res (list Z * list Z) :=
   bind (featureData_mtag B mt [index] feature_index m) (fun l =>
   match l with x :: _ => Ok x | [] => UB "[0] of an empty vector" end).
+
+(** taggedData(const MultiTag &, ndsize_t position_index, ndsize_t reference_index, RangeMatch) = (...)[0] *)
+Definition taggedData_mtag1_ref (B : behaviour) (mt : mtag) (index : Z) (reference_index : Z) (m : RangeMatch)
+  : res (list Z * list Z) :=
+  bind (taggedData_mtag_ref B mt [index] reference_index m) (fun l =>
+  match l with x :: _ => Ok x | [] => UB "[0] of an empty vector" end).
+
+(** default arguments of the header: retrieval is Exclusive, getOffsetAndCount is Inclusive *)
+Definition default_match_retrieval : RangeMatch := RangeMatch_Exclusive.
+Definition default_match_offcnt : RangeMatch := RangeMatch_Inclusive.
